@@ -91,10 +91,11 @@ func (g *Gen) genRoundTripHistory() {
 		return
 	}
 	if r.Bool(12) {
-		// a dense-family source holding a few far-apart bins (the encoder then prefers the index-delta layout)
+		// a source (dense family, sparse, paginated) holding a few far-apart bins (the encoder then prefers the index-delta layout)
 		// with fractional weights; in half of the cases the weights add up to the number of bins, as integer
 		// unit weights would (seeded change C06e tested the total instead of the bins)
-		sg.line("K 1 1 %s%s", []string{"dense", "low 64", "high 64", "low 1024"}[r.Intn(4)], x)
+		// (round 11, C06f: the same slip in the sparse store's encoder — any store kind may be the source)
+		sg.line("K 1 1 %s%s", []string{"dense", "low 64", "high 64", "low 1024", "sparse", "sparse", "pag", "sparse"}[r.Intn(8)], x)
 		shapes := [][]float64{{0.5, 1.5}, {0.25, 0.25, 2.5}, {0.75, 1.25}, {0.5, 0.5, 0.5, 2.5}, {1.5, 2.5}, {0.5, 3}}
 		ws := shapes[r.Intn(len(shapes))]
 		m := sg.m
